@@ -227,7 +227,7 @@ DOMAIN[GP + 'GraphProcessor._update_comb_fixed_mask'] = _domain_update_mask
 # Mechanical extraction: statements from `opt_dec_used_values: ... =` up to (not including) `opt_dec_existence_key = ...`;
 # everything before is abstracted by the declared live variables (arbitrary values of the stated types).
 CONTRACTS[GP + 'GraphProcessor.get_graph@selection-used-values'] = dict(
-    properties=['C07', 'C03'],
+    properties=['C07', 'C03', 'C01'],
     types={'self': 'Ref[GraphProcessor]', 'des_var_values': 'List[Real]', 'create': 'Bool'},
     start_at='opt_dec_used_values:',
     stop_before='opt_dec_existence_key',
@@ -293,7 +293,7 @@ DV_OK2 = ('(n.bounds is None or n.options is None) and implies(n.bounds is not N
           'implies(n.options is not None, len(n.options) >= 1) and (n.bounds is not None or n.options is not None)')
 IN_DOM = ('ite(n.options is not None, is_int(v) and 0 <= v and v <= len(n.options) - 1, n.bounds[0] <= v and v <= n.bounds[1])')
 CONTRACTS[GP + 'GraphProcessor.get_graph@design-variable-values'] = dict(
-    properties=['C16'],
+    properties=['C16', 'C01'],
     types={'self': 'Ref[GraphProcessor]', 'des_var_values': 'List[Real]', 'create': 'Bool'},
     start_at='if np.any(dv_node_existence):',
     stop_before='is_active = [used_value is not None',
